@@ -89,9 +89,41 @@ type UseMix struct {
 	TestOnly bool // @testonly on Mock, Mock2, Helper, S.Reset, (*S).ResetP
 	Allow    int  // AllowShapes index on the same items
 	AnnOrder int  // 0: testonly line first; 1: packageonly first, prose between
+	Skip     int  // bit mask of items that carry NO annotation: 1 Mock, 2 Mock2, 4 Helper, 8 Reset, 16 ResetP
+	DeclOrder int // order of the declarations in package d: 0 types-funcs-methods, 1 reversed, 2 funcs-methods-types, 3 methods-funcs-types
 }
 
-func (m UseMix) String() string { return fmt.Sprintf("testonly=%v,allow=%d,order=%d", m.TestOnly, m.Allow, m.AnnOrder) }
+func (m UseMix) String() string {
+	return fmt.Sprintf("testonly=%v,allow=%d,order=%d,skip=%d,declorder=%d", m.TestOnly, m.Allow, m.AnnOrder, m.Skip, m.DeclOrder)
+}
+
+// Item bits for UseMix.Skip.
+const (
+	ItMock = 1 << iota
+	ItMock2
+	ItHelper
+	ItReset
+	ItResetP
+)
+
+// itemOf maps a site to the annotated item it refers to.
+func itemOf(kind UseKind, typ, tag string) int {
+	switch kind {
+	case UKFunc:
+		return ItHelper
+	case UKMethod:
+		if strings.Contains(tag, "ResetP") {
+			return ItResetP
+		}
+		return ItReset
+	case UKType:
+		if typ == "Mock2" {
+			return ItMock2
+		}
+		return ItMock
+	}
+	return 0
+}
 
 // UseKind classifies a use site.
 type UseKind int
@@ -261,7 +293,10 @@ type UseRendered struct {
 	Sites []UseSiteInst // in textual order per file, files in order
 }
 
-func (m UseMix) ann(w *lineWriter, indent string) {
+func (m UseMix) ann(w *lineWriter, indent string, item int) {
+	if m.Skip&item != 0 {
+		return
+	}
 	var to, po []string
 	if m.TestOnly {
 		to = []string{"// @testonly"}
@@ -286,34 +321,61 @@ func (m UseMix) ann(w *lineWriter, indent string) {
 }
 
 func usePreludeD(w *lineWriter, m UseMix) {
-	w.add("// Mock is a test double.")
-	m.ann(w, "")
-	w.add("type Mock struct{ A int }")
-	w.add("")
-	w.add("// Mock2 is another one.")
-	m.ann(w, "")
-	w.add("type Mock2 struct{ A int }")
-	w.add("")
-	w.add("type Plain struct{ A int }")
-	w.add("")
-	w.add("// Helper helps.")
-	m.ann(w, "")
-	w.add("func Helper() int { return 0 }")
-	w.add("")
-	w.add("func PlainF() int { return 0 }")
-	w.add("")
-	w.add("type S struct{ K int }")
-	w.add("")
-	w.add("// Reset resets.")
-	m.ann(w, "")
-	w.add("func (s S) Reset() {}")
-	w.add("")
-	w.add("// ResetP resets through a pointer.")
-	m.ann(w, "")
-	w.add("func (s *S) ResetP() {}")
-	w.add("")
-	w.add("func (s S) Keep() {}")
-	w.add("")
+	chunk := func(f func()) func() { return f }
+	tMock := chunk(func() {
+		w.add("// Mock is a test double.")
+		m.ann(w, "", ItMock)
+		w.add("type Mock struct{ A int }")
+		w.add("")
+	})
+	tMock2 := chunk(func() {
+		w.add("// Mock2 is another one.")
+		m.ann(w, "", ItMock2)
+		w.add("type Mock2 struct{ A int }")
+		w.add("")
+	})
+	tPlain := chunk(func() {
+		w.add("type Plain struct{ A int }")
+		w.add("")
+		w.add("type S struct{ K int }")
+		w.add("")
+	})
+	fHelper := chunk(func() {
+		w.add("// Helper helps.")
+		m.ann(w, "", ItHelper)
+		w.add("func Helper() int { return 0 }")
+		w.add("")
+		w.add("func PlainF() int { return 0 }")
+		w.add("")
+	})
+	mReset := chunk(func() {
+		w.add("// Reset resets.")
+		m.ann(w, "", ItReset)
+		w.add("func (s S) Reset() {}")
+		w.add("")
+	})
+	mResetP := chunk(func() {
+		w.add("// ResetP resets through a pointer.")
+		m.ann(w, "", ItResetP)
+		w.add("func (s *S) ResetP() {}")
+		w.add("")
+		w.add("func (s S) Keep() {}")
+		w.add("")
+	})
+	var order []func()
+	switch m.DeclOrder {
+	case 1:
+		order = []func(){mResetP, mReset, fHelper, tPlain, tMock2, tMock}
+	case 2:
+		order = []func(){fHelper, mReset, mResetP, tPlain, tMock, tMock2}
+	case 3:
+		order = []func(){mReset, mResetP, fHelper, tMock2, tPlain, tMock}
+	default:
+		order = []func(){tMock, tMock2, tPlain, fHelper, mReset, mResetP}
+	}
+	for _, f := range order {
+		f()
+	}
 }
 
 // RenderUse renders the spec.
@@ -506,6 +568,9 @@ func ExpectUse(fam string, s *UseSpec, rd *UseRendered) [][]string {
 		si := &rd.Sites[i]
 		if si.FileNo == 2 { // _test.go: excluded under the default configuration
 			continue
+		}
+		if s.Mix.Skip&itemOf(si.Kind, si.Type, si.Tag) != 0 {
+			continue // the item carries no annotation
 		}
 		switch fam {
 		case "TONL":
